@@ -38,7 +38,18 @@
 #include "stir/recon_buildblock/PoissonLogLikelihoodWithLinearModelForMean.h"
 #include "stir/OSMAPOSL/OSMAPOSLReconstruction.h"
 #include "stir/OSSPS/OSSPSReconstruction.h"
+#include "stir/analytic/FBP2D/FBP2DReconstruction.h"
+#include "stir/recon_buildblock/ForwardProjectorByBin.h"
+#include "stir/ProjDataInterfile.h"
+#include "stir/RegisteredParsingObject.h"
+#include "stir/RelatedViewgrams.h"
+#include "stir/Viewgram.h"
+#include "stir/TextWriter.h"
 #include <cstdlib>
+#include <cstdio>
+#include <algorithm>
+#include <unistd.h>
+#include <sys/stat.h>
 #include <sstream>
 #include <map>
 #include <set>
@@ -174,7 +185,7 @@ build_geo(const json& c)
   im["ny"] = 3;
   im["z_div"] = 1;
   im["nz_extra"] = 0;
-  im["vx_rel"] = 1.;
+  im["vx_rel"] = c.value("vx_rel", 1.); // (1: voxel size = tangential sampling; other values only in triage cases)
   im["vy_same"] = !c.value("nonsquare", false);
   im["vy_rel"] = 2.;
   im["z_shift_planes"] = 0;
@@ -319,6 +330,9 @@ build_config(const json& c, Geo& g, shared_ptr<ProjectorByBinPair>& pair, shared
     }
   return build_pair(c["sym"], g, pair, direct_sym);
 }
+
+// (d)-(g): the OPERATIONAL partition clauses on the subset-taking entry points (counting projectors, indicator inputs)
+#include "c06_operational.h"
 
 Result
 check_config(const json& c)
@@ -526,6 +540,26 @@ protected:
   bool actual_subsets_are_approximately_balanced(std::string&) const override { return true; }
 };
 
+//! the recording objective function in the registry of objective functions: OSMAPOSLReconstruction::parse can then be given
+//! "objective function type := verif recording objective function" -- the parameter-file way of configuring the subsets
+//! (keys "number of subsets", "start at subset", "start at subiteration number", "number of subiterations", "uniformly
+//! randomise subset order"), which is how the OSMAPOSL executable is driven
+class ParsedRecordingObjective : public RegisteredParsingObject<ParsedRecordingObjective, GeneralisedObjectiveFunction<Target>, RecordingObjective>
+{
+public:
+  static const char* const registered_name;
+
+protected:
+  void initialise_keymap() override
+  {
+    RecordingObjective::initialise_keymap();
+    this->parser.add_start_key("Verif Recording Objective Function Parameters");
+    this->parser.add_stop_key("End Verif Recording Objective Function Parameters");
+  }
+};
+const char* const ParsedRecordingObjective::registered_name = "verif recording objective function";
+static ParsedRecordingObjective::RegisterIt c06_register_recording_objective;
+
 //! the validity predicate of clause (c) for ONE run: sub-iterations start_subiter..K with N subsets.
 /*! every completely run window [kN+1,(k+1)N] contains every subset exactly once; distinct subsets in a partially run
     window; all subset numbers in [0,N); without randomisation the documented formula (IterativeReconstruction.h,
@@ -579,21 +613,51 @@ check_schedule(const json& c)
 {
   const int N = c["N"], start_subset = c["start_subset"], start_subiter = c["start_subiter"], K = c["num_subiters"];
   const bool randomise = c["randomise"];
+  // via_parse: the configuration is given as a parameter file (KeyParser keys) and the run is started with the
+  // parameterless reconstruct() (initial estimate "1", set_up inside), as the OSMAPOSL executable does
+  const bool via_parse = c.value("via_parse", false);
   shared_ptr<RecordingObjective> obj(new RecordingObjective);
   OSMAPOSLReconstruction<Target> recon;
   shared_ptr<Target> target(obj->construct_target_ptr());
   target->fill(1.F);
   try
     {
-      recon.set_objective_function_sptr(obj);
-      recon.set_disable_output(true);
-      recon.set_num_subsets(N);
-      recon.set_num_subiterations(K);
-      recon.set_start_subiteration_num(start_subiter);
-      recon.set_start_subset_num(start_subset);
-      recon.set_randomise_subset_order(randomise);
-      if (recon.set_up(target) != Succeeded::yes)
-        return Result::reject("reconstruction set_up failed");
+      if (via_parse)
+        {
+          std::stringstream par;
+          par << "OSMAPOSLParameters :=\n"
+              << "objective function type := " << ParsedRecordingObjective::registered_name << "\n"
+              << "  Verif Recording Objective Function Parameters :=\n"
+              << "  End Verif Recording Objective Function Parameters :=\n"
+              << "disable output := 1\n"
+              << "number of subsets := " << N << "\n"
+              << "start at subset := " << start_subset << "\n"
+              << "start at subiteration number := " << start_subiter << "\n"
+              << "number of subiterations := " << K << "\n"
+              << "uniformly randomise subset order := " << (randomise ? 1 : 0) << "\n"
+              << "End :=\n";
+          if (!recon.parse(par))
+            return Result::reject("parsing the OSMAPOSL parameters failed");
+          obj = dynamic_pointer_cast<RecordingObjective>(recon.get_objective_function_sptr());
+          VF_CHECK(!!obj, "the parsed reconstruction object does not hold the recording objective function");
+          VF_CHECK(recon.get_num_subsets() == N && recon.get_start_subset_num() == start_subset && recon.get_start_subiteration_num() == start_subiter
+                       && recon.get_num_subiterations() == K && recon.get_randomise_subset_order() == randomise,
+                   "after parsing, the object reports num_subsets=", recon.get_num_subsets(), " start_subset=", recon.get_start_subset_num(),
+                   " start_subiteration=", recon.get_start_subiteration_num(), " num_subiterations=", recon.get_num_subiterations(),
+                   " randomise=", recon.get_randomise_subset_order());
+        }
+      else
+        {
+          recon.set_objective_function_sptr(obj);
+          recon.set_disable_output(true);
+          recon.set_num_subsets(N);
+          recon.set_num_subiterations(K);
+          recon.set_start_subiteration_num(start_subiter);
+          recon.set_start_subset_num(start_subset);
+          recon.set_randomise_subset_order(randomise);
+          if (recon.set_up(target) != Succeeded::yes)
+            return Result::reject("reconstruction set_up failed");
+        }
     }
   catch (const stir_verif::AssertionFailure&)
     {
@@ -612,7 +676,7 @@ check_schedule(const json& c)
   std::string stopped;
   try
     {
-      ok = recon.reconstruct(target);
+      ok = via_parse ? recon.reconstruct() : recon.reconstruct(target);
     }
   catch (const SubsetOutOfRange& e)
     {
@@ -636,6 +700,8 @@ check_schedule(const json& c)
   stats().count("complete iterations checked", complete);
   stats().count("sub-iterations observed", long(obj->gradient_subsets.size()));
   stats().cls(randomise ? "schedule: randomised" : "schedule: sequential");
+  if (via_parse)
+    stats().cls("schedule: configured by parsing, parameterless reconstruct()");
   if ((start_subiter - 1) % N != 0)
     stats().cls("schedule: starts inside an iteration");
   if (start_subset != 0)
@@ -1100,6 +1166,14 @@ check(const json& c)
     return check_history(c);
   if (c["kind"] == "cfgops")
     return check_cfgops(c);
+  if (c["kind"] == "opcount")
+    return check_opcount(c);
+  if (c["kind"] == "opreal")
+    return check_opreal(c);
+  if (c["kind"] == "fbp")
+    return check_fbp(c);
+  if (c["kind"] == "opobj")
+    return check_opobj(c);
   return check_config(c);
 }
 
@@ -1232,6 +1306,140 @@ add_cfgops_space(std::vector<json>& out)
         }
 }
 
+// (d)-(g) bounded-exhaustive block of the operational clauses (see c06_operational.h).  "Ns" absent = ALL num_subsets
+// 1..num_views; else a list of (num_subsets - 1).  The sanitizer build (~20x slower) runs a reduced range of view counts and
+// not the objective function (its set_up reads a never-initialised member, see above).
+json
+op_case(const char* kind, int views, int segs, int tof, int sym)
+{
+  json c = cfg_case(views, 1, segs, -1, tof, sym);
+  c["kind"] = kind;
+  return c;
+}
+
+json
+sampled_subset_counts(int views)
+{ // num_subsets 1,2,3,4, around a quarter and a half of the views, views-1, views (stored as num_subsets - 1)
+  std::set<int> Ns = { 1, 2, 3, 4, views / 4, views / 4 + 1, views / 2 - 1, views / 2, views / 2 + 1, views - 1, views };
+  json a = json::array();
+  for (int N : Ns)
+    if (N >= 1 && N <= views)
+      a.push_back(N - 1);
+  return a;
+}
+
+void
+add_operational_space(std::vector<json>& out, int tier)
+{
+  // ---- (d) counting projectors: all entry points, all num_subsets
+  const int max_cnt = C06_SANITIZED ? 6 : (tier ? 24 : 12);
+  for (int views = 2; views <= max_cnt; ++views)
+    {
+      for (int segs = 0; segs <= 2; ++segs)
+        {
+          for (int sym = 0; sym <= 7; ++sym)
+            out.push_back(op_case("opcount", views, segs, 1, sym));
+          for (int sym : { 0, 7 })
+            out.push_back(op_case("opcount", views, segs, 3, sym));
+        }
+      json c = op_case("opcount", views, 1, 1, 7);
+      c["tilt"] = true;
+      out.push_back(c);
+      c = op_case("opcount", views, 1, 1, 6);
+      c["nonsquare"] = true;
+      out.push_back(c);
+      for (int step : { 2, 3 })
+        if (views >= step)
+          {
+            c = op_case("opcount", views, 1, 1, 7);
+            c["subset_by_view"] = step;
+            c["subset_by_view_offset"] = views % step;
+            out.push_back(c);
+          }
+      for (int sym : { 0, 3, 5 })
+        { // asymmetric segment range: only without swap-segment (assertion in find_basic_vs_nums_in_subset)
+          c = op_case("opcount", views, 2, 1, sym);
+          c["seg_lo"] = -1;
+          c["seg_hi"] = 2;
+          out.push_back(c);
+        }
+    }
+  // larger view counts with a sample of num_subsets
+  if (!C06_SANITIZED)
+    for (int views : { 16, 24, 32, 36, 48, 64, 90, 96 })
+      for (int sym : { 0, 2, 3, 5, 7 })
+        for (int tof : { 1, 3 })
+          {
+            if (tof == 3 && sym != 0 && sym != 7)
+              continue;
+            json c = op_case("opcount", views, 1, tof, sym);
+            c["Ns"] = sampled_subset_counts(views);
+            c["rot"] = views / 3;
+            out.push_back(c);
+          }
+  // ---- (e) the ray-tracing projector pair with indicator inputs
+  const int max_real = C06_SANITIZED ? 4 : (tier ? 12 : 8);
+  for (int views = 2; views <= max_real; ++views)
+    for (int segs = 0; segs <= 1; ++segs)
+      {
+        for (int sym = 1; sym <= 7; ++sym)
+          out.push_back(op_case("opreal", views, segs, 1, sym));
+        if (views <= 6)
+          for (int sym : { 1, 7 })
+            out.push_back(op_case("opreal", views, segs, 3, sym));
+      }
+  if (!C06_SANITIZED)
+    for (int views : { 12, 16, 24 })
+      for (int sym : { 3, 5, 7 })
+        {
+          json c = op_case("opreal", views, 1, 1, sym);
+          c["Ns"] = sampled_subset_counts(views);
+          c["max_indicators"] = 16;
+          out.push_back(c);
+        }
+  // ---- (f) FBP2DReconstruction with the counting back projector
+  std::vector<int> fbp_views;
+  for (int v = 2; v <= (C06_SANITIZED ? 4 : 16); ++v)
+    fbp_views.push_back(v);
+  if (C06_SANITIZED)
+    for (int v : { 6, 8 })
+      fbp_views.push_back(v);
+  if (!C06_SANITIZED)
+    for (int v : { 20, 24, 32, 48, 64, 96 })
+      fbp_views.push_back(v);
+  for (int views : fbp_views)
+    for (int segs = 0; segs <= (C06_SANITIZED ? 1 : views <= 16 ? 2 : 1); ++segs)
+      for (int sym : { 0, 2, 3, 5, 7 })
+        for (int variant = 0; variant < 3; ++variant)
+          {
+            if (C06_SANITIZED && (sym == 2 || sym == 5))
+              continue; // (each reconstruction reads its data from a file: ~0.1 s in the sanitizer build) // 0: default num_segments_to_combine (-1: SSRB of 3 segments when there are any), 1: no SSRB, 2: default, arc-corrected data
+            if (variant == 1 && segs == 0)
+              continue;
+            json c = op_case("fbp", views, segs, 1, sym);
+            c["num_segments_to_combine"] = variant == 1 ? 1 : -1;
+            c["arccorr"] = variant == 2;
+            out.push_back(c);
+          }
+  // ---- (g) the objective function on the counting projector pair
+  if (!C06_SANITIZED)
+    for (int views = 2; views <= (tier ? 16 : 10); ++views)
+      for (int segs = 0; segs <= 2; ++segs)
+        for (int sym : { 0, 2, 3, 5, 7 })
+          for (int tof : { 1, 3 })
+            {
+              if (tof == 3 && sym != 0 && sym != 7)
+                continue;
+              out.push_back(op_case("opobj", views, segs, tof, sym));
+              if (segs == 2)
+                {
+                  json c = op_case("opobj", views, segs, tof, sym);
+                  c["proc_max"] = 1;
+                  out.push_back(c);
+                }
+            }
+}
+
 const std::vector<json>&
 space(int tier)
 {
@@ -1321,8 +1529,25 @@ space(int tier)
               c["num_subiters"] = K;
               out.push_back(c);
             }
+  // (c) the same through the parameter-file keys and the parameterless reconstruct()
+  for (int N = 1; N <= (tier ? 8 : 6); ++N)
+    for (int start_subset = 0; start_subset < N; ++start_subset)
+      for (int start_subiter = 1; start_subiter <= 2 * N + 1; ++start_subiter)
+        for (int randomise = 0; randomise <= 1; ++randomise)
+          {
+            json c;
+            c["kind"] = "sched";
+            c["via_parse"] = true;
+            c["N"] = N;
+            c["start_subset"] = start_subset;
+            c["start_subiter"] = start_subiter;
+            c["randomise"] = randomise == 1;
+            c["num_subiters"] = 3 * N;
+            out.push_back(c);
+          }
   add_history_space(out, tier);
   add_cfgops_space(out);
+  add_operational_space(out, tier);
   return out;
 }
 
@@ -1341,7 +1566,56 @@ json
 gen(Src& s, int size)
 {
   json c;
-  const int which = int(s.range(0, 8));
+  const int which = int(s.range(0, 11));
+  if (which >= 9)
+    { // operational clauses beyond the enumerated bounds: more views, a generated list of num_subsets
+      const int kind = int(s.range(0, C06_SANITIZED ? 5 : 7)); // 0-2 opcount, 3 opreal, 4-5 fbp, 6-7 opobj
+      const bool real = kind == 3, fbp = kind == 4 || kind == 5, obj = kind >= 6;
+      const int views = int(s.range(2, C06_SANITIZED ? (real ? 6 : 12) : (real ? 16 : obj ? 32 : 40 + size)));
+      const int segs = int(s.range(0, real ? 1 : 2));
+      int sym = int(s.range(real ? 1 : 0, 7));
+      const int tof = s.chance(1, 4) ? 3 : 1; // (fbp + TOF: known finding, excluded by known_signature)
+      c = cfg_case(views, int(s.pick(std::vector<int>{ 1, 1, 2 })), segs, -1, tof, sym);
+      c["kind"] = real ? "opreal" : fbp ? "fbp" : obj ? "opobj" : "opcount";
+      if (fbp)
+        {
+          c["num_segments_to_combine"] = int(s.pick(std::vector<int>{ -1, -1, 1, 3 }));
+          if (c["num_segments_to_combine"].get<int>() == 3 && segs == 0)
+            c["num_segments_to_combine"] = -1; // (SSRB of 3 segments needs them)
+          c["arccorr"] = s.chance(1, 3);
+          c["image_xy"] = int(s.pick(std::vector<int>{ 3, 3, 4, 5 }));
+          if (s.chance(1, 8))
+            c["tilt"] = true;
+          return c;
+        }
+      json Ns = json::array();
+      const int n = int(s.range(1, real ? 3 : 6));
+      for (int k = 0; k < n; ++k)
+        Ns.push_back(int(s.chance(1, 2) ? s.range(0, 5) : s.range(0, views - 1)));
+      c["Ns"] = Ns;
+      c["rot"] = int(s.range(0, 999));
+      if (real)
+        c["max_indicators"] = 12;
+      if (obj && segs > 0 && s.chance(1, 3))
+        c["proc_max"] = int(s.range(0, segs));
+      if (s.chance(1, 8))
+        c["tilt"] = true;
+      if (s.chance(1, 8))
+        c["nonsquare"] = true;
+      if (!obj && s.chance(1, 8))
+        {
+          const int step = int(s.range(2, 4));
+          c["subset_by_view"] = step;
+          c["subset_by_view_offset"] = int(s.range(0, std::min(step, views) - 1)); // (build_geo: first view = offset mod step, must exist)
+        }
+      const bool swap_seg = sym == 2 || sym == 4 || sym >= 6;
+      if (!obj && segs > 0 && !swap_seg && s.chance(1, 8))
+        { // asymmetric range (only without swap-segment: assertion in find_basic_vs_nums_in_subset)
+          c["seg_lo"] = -int(s.range(0, segs - 1));
+          c["seg_hi"] = segs;
+        }
+      return c;
+    }
   if (which <= 2)
     { // object-reuse history: 2-4 runs on one reconstruction object
       const int algo = s.chance(1, 4) ? 1 : 0;
@@ -1401,6 +1675,8 @@ gen(Src& s, int size)
       c["start_subiter"] = int(s.range(1, 3 * N + 1));
       c["randomise"] = s.coin();
       c["num_subiters"] = c["start_subiter"].get<int>() + int(s.range(0, 4 * N));
+      if (s.chance(1, 3))
+        c["via_parse"] = true;
       return c;
     }
   const int views = int(s.range(2, C06_SANITIZED ? 40 : 97 + size * 2)); // (the sanitizer build is ~20x slower)
@@ -1440,8 +1716,31 @@ nontrivial(const json& c)
     return c["ops"].size() >= 2;
   if (c["kind"] == "cfgops")
     return c["ops"].size() >= 3 && c["views"].get<int>() >= 3;
+  // (operational clauses: as the configuration cases; with a list of num_subsets one of them has to be > 1;
+  //  FBP2D has no subsets: a symmetry group > 1 or >= 3 views)
+  if (c.contains("Ns") && c["kind"] != "fbp")
+    {
+      bool any = false;
+      const int views = c["views"];
+      for (const json& n : c["Ns"])
+        any = any || 1 + int((n.get<long>() % views + views) % views) > 1;
+      return any && (views >= 3 || c["sym"].get<int>() >= 2);
+    }
   // all num_subsets 1..views are run inside a case: some do not divide num_views as soon as views >= 3
   return c["views"].get<int>() >= 3 || c["sym"].get<int>() >= 2;
+}
+
+// known findings (see known_findings.json): the class is excluded by signature unless VERIF_NO_EXCLUDE is set
+std::string
+known_signature(const json& c)
+{
+  const char* e = std::getenv("VERIF_NO_EXCLUDE");
+  if (e && *e)
+    return "";
+  // FBP2DReconstruction accepts TOF data and reconstructs only TOF bin 0 of every view
+  if (c["kind"] == "fbp" && c.value("tof", 1) > 1)
+    return "C06:FBP2D:TOF-data:only-TOF-bin-0-processed";
+  return "";
 }
 
 } // namespace
@@ -1455,6 +1754,7 @@ the_property()
   p.check = check;
   p.nontrivial = nontrivial;
   p.enumerate = enumerate;
+  p.known_signature = known_signature;
   p.shrink_lists = { "ops" };
   return p;
 }
